@@ -160,8 +160,9 @@ impl<D: DictionaryAccess> DictBuilder<D> {
         bldr.set_user(true);
         bldr.lexicon.preload_pos(system.grammar());
         let cm = system.grammar().conn_matrix();
+        // left id of a word is looked up in the second dimension of the matrix, right id - in the first
         bldr.lexicon
-            .set_max_conn_sizes(cm.num_left() as _, cm.num_right() as _);
+            .set_max_conn_sizes(cm.num_right() as _, cm.num_left() as _);
         bldr.lexicon
             .set_num_system_words(system.lexicon().size() as usize);
         bldr.prebuilt = Some(system);
@@ -200,8 +201,9 @@ impl<D: DictionaryAccess> DictBuilder<D> {
             DataSource::Data(d) => self.conn.read(d),
         };
         // a failed read can have changed the matrix size, entries must be validated against it
+        // left id of a word is looked up in the second dimension of the matrix, right id - in the first
         self.lexicon
-            .set_max_conn_sizes(self.conn.left(), self.conn.right());
+            .set_max_conn_sizes(self.conn.right(), self.conn.left());
         result?;
         self.reporter.collect(
             self.conn.left() as usize * self.conn.right() as usize,
